@@ -40,6 +40,8 @@ func init() {
 			ruleFlushRendezvous(r, "R9")
 			ruleC01R10(r)
 			ruleNoAliasAfterTruncate(r, "R11", "/iscp")
+			ruleDispatchLoopsSurvive(r, "R12", "/wire", "/iscp") // every result of a batched ack reaches its waiter
+			r.borrow("C20", func() { ruleC20P5(r, cut) }) // what counts as an empty buffer decides whether buffered points are ever sent and acknowledged
 		},
 	})
 }
